@@ -128,3 +128,9 @@ pub mod context;
 mod group;
 mod nsec;
 mod utilities;
+
+/// Access to the denial-of-existence helpers for the verification harness.
+#[cfg(domain_verif)]
+pub mod verif_hooks {
+    pub use super::nsec::*;
+}
